@@ -1069,4 +1069,12 @@ theorem WF.of_run {h : Heap} (w : WF h) (ops : List Op) : WF (run h ops) := by
 theorem wf_empty : WF {} := by
   constructor <;> simp
 
+
+theorem step_eq_self_of_immutable_target (h : Heap) (op : Op) (j : Nat) (o : Obj)
+    (ho : h.objs[j]? = some o) (hm : o.cls.isMutable = false) (ht : tgt op = some j) : step h op = h := by
+  cases op <;> simp only [tgt, Option.some.injEq, reduceCtorEq] at ht
+  case mutate t g => subst ht; simp [step, ho, hm]
+  case rebind t g => subst ht; simp [step, ho, hm]
+  case assignBits d s => subst ht; simp only [step, ho]; cases h.objs[s]? <;> simp [hm]
+
 end BM.C04
